@@ -269,8 +269,8 @@ class DB:
         well.
         """
         res = DB()
-        res.db = self.db.copy()
-        res.rdb = self.rdb.copy()
+        res.db = {k: v.copy() for k, v in self.db.items()}
+        res.rdb = {k: v.copy() for k, v in self.rdb.items()}
         return res
 
     def reverse_copy(self):
@@ -280,8 +280,8 @@ class DB:
         this one.
         """
         res = DB()
-        res.db = self.rdb.copy()
-        res.rdb = self.db.copy()
+        res.db = {k: v.copy() for k, v in self.rdb.items()}
+        res.rdb = {k: v.copy() for k, v in self.db.items()}
         return res
 
     reverseCopy = function_deprecated_by(reverse_copy)
